@@ -173,7 +173,8 @@ let run_fedr (input : Sexp.t) (impl : Sexp.t) : Verdict.t =
   let mpubs = fr_run (fr_init node local_ops fed_ops peers) pubs in
   let sx_pub ((evs, drop), opts) =
     let sent = List.concat_map (fun (p, es) -> List.map (fun e -> Sexp.L [sx_bytes p; sx_event e]) es) evs in
-    Sexp.L [Sexp.L (Sexp.A "sent" :: sorted_sx sent); Sexp.L [Sexp.A "drop"; sx_bool drop]; Sexp.L [Sexp.A "opts"; sx_iopts opts]] in
+    Sexp.L [Sexp.L (Sexp.A "sent" :: sorted_sx sent); Sexp.L [Sexp.A "drop"; sx_bool drop]; Sexp.L [Sexp.A "opts"; sx_iopts opts];
+            Sexp.L [Sexp.A "idsok"; sx_bool true]] in
   let mrecv = fr_receive_all recv rdb_init in
   let sx_recv (p, ret) =
     Sexp.L [Sexp.L [Sexp.A "pubs"; sx_msg p]; Sexp.L (Sexp.A "ret" :: sorted_msgs ret); Sexp.L [Sexp.A "fwd"; sx_int 0];
@@ -183,7 +184,9 @@ let run_fedr (input : Sexp.t) (impl : Sexp.t) : Verdict.t =
   let ipubs = Sexp.field "pubs" impl and irecv = Sexp.field "recv" impl in
   let norm_pub x =
     Sexp.L [Sexp.L (Sexp.A "sent" :: sorted_sx (Sexp.field "sent" x)); Sexp.L (Sexp.A "drop" :: Sexp.field "drop" x);
-            Sexp.L (Sexp.A "opts" :: Sexp.field "opts" x)] in
+            Sexp.L (Sexp.A "opts" :: Sexp.field "opts" x);
+            (* ids of the events in every peer queue are consecutive (checked by the harness on the real queues) *)
+            Sexp.L (Sexp.A "idsok" :: (match Sexp.field_opt "idsok" x with Some v -> v | None -> [sx_bool true]))] in
   let impl_n = Sexp.L [Sexp.L (Sexp.A "pubs" :: List.map norm_pub ipubs); Sexp.L (Sexp.A "recv" :: irecv)] in
   let agree = Sexp.to_string model = Sexp.to_string impl_n in
   let pobs = List.map (fun x ->
@@ -194,7 +197,8 @@ let run_fedr (input : Sexp.t) (impl : Sexp.t) : Verdict.t =
   let robs = List.map (fun x ->
       { ro_pubs = List.map msg_of_sx (Sexp.field "pubs" x); ro_ret = List.map msg_of_sx (Sexp.field "ret" x);
         ro_fwd = n_of_sx (Sexp.field1 "fwd" x) }) irecv in
-  let pub_ok = List.length pobs = List.length pubs && List.for_all2 (fun m o -> c17_pub_ok case m o) pubs pobs in
+  let ids_ok = List.for_all (fun x -> match Sexp.field_opt "idsok" x with Some [v] -> bool_of_sx v | _ -> true) ipubs in
+  let pub_ok = ids_ok && List.length pobs = List.length pubs && List.for_all2 (fun m o -> c17_pub_ok case m o) pubs pobs in
   let recv_ok = c17_recv_ok [] recv robs in
   let oracle = pub_ok && recv_ok in
   (* every failing publish must be in the known-finding class; the receiving side has none *)
